@@ -265,6 +265,9 @@ func parseHeaderValueBlock(r io.Reader, streamId StreamId) (http.Header, uint32,
 			return nil, 0, err
 		}
 		name := string(nameBytes)
+		if len(name) == 0 {
+			e = &Error{EmptyHeaderName, streamId}
+		}
 		if name != strings.ToLower(name) {
 			e = &Error{UnlowercasedHeaderName, streamId}
 			name = strings.ToLower(name)
